@@ -387,7 +387,7 @@ class DATE_AND_TIME(ElementaryDataType):
         try:
             return UDINT.encode(time) + UINT.encode(date)
         except Exception as err:
-            raise DataError(f"Error packing {time!r} as {cls.__name__}") from err
+            raise DataError(f"Error packing {_value_repr(time)} as {cls.__name__}") from err
 
     @classmethod
     def _decode(cls, stream: BytesIO) -> Tuple[int, int]:
@@ -657,7 +657,7 @@ class EPATH(ElementaryDataType):
             return path
         except Exception as err:
             raise DataError(
-                f"Error packing {reprlib.repr(segments)} as {cls.__name__}"
+                f"Error packing {_value_repr(segments)} as {cls.__name__}"
             ) from err
 
     @classmethod
@@ -742,7 +742,7 @@ class STRINGI(StringDataType):
             return data
         except Exception as err:
             raise DataError(
-                f"Error packing {reprlib.repr(strings)} as {cls.__name__}"
+                f"Error packing {_value_repr(strings)} as {cls.__name__}"
             ) from err
 
     @classmethod
@@ -821,7 +821,7 @@ def Array(
                 _num_values = len(values)
             except Exception as err:
                 raise DataError(
-                    f"Error packing {reprlib.repr(values)} into {cls.element_type}[{_length}]"
+                    f"Error packing {_value_repr(values)} into {cls.element_type}[{_length}]"
                 ) from err
 
             if isinstance(_length, int):
@@ -857,7 +857,7 @@ def Array(
                 return b"".join(cls.element_type.encode(values[i]) for i in range(_len))
             except Exception as err:
                 raise DataError(
-                    f"Error packing {reprlib.repr(values)} into {cls.element_type}[{_length}]"
+                    f"Error packing {_value_repr(values)} into {cls.element_type}[{_length}]"
                 ) from err
 
         @classmethod
@@ -989,7 +989,7 @@ class CIPSegment(DataType):
             return cls._encode(segment, padded)
         except Exception as err:
             raise DataError(
-                f"Error packing {reprlib.repr(segment)} as {cls.__name__}"
+                f"Error packing {_value_repr(segment)} as {cls.__name__}"
             ) from err
 
     @classmethod
